@@ -44,7 +44,7 @@ type grpIn struct {
 }
 
 type opIn struct {
-	Op     string  `json:"op"` // arrive burst meta mburst read readmeta await close cut
+	Op     string  `json:"op"` // arrive burst meta mburst mrounds read readmeta await close cut stuck
 	UpFull bool    `json:"upfull,omitempty"`
 	Up     int     `json:"up,omitempty"` // upstream info (full) or alias
 	Seq    int     `json:"seq,omitempty"`
@@ -52,13 +52,15 @@ type opIn struct {
 	Src    int     `json:"src,omitempty"`
 	Body   int     `json:"body,omitempty"`
 	N      int     `json:"n,omitempty"`
+	Rounds int     `json:"rounds,omitempty"`
 }
 
 type caseIn struct {
 	QoS        int    `json:"qos"`
 	Pre        []int  `json:"pre,omitempty"` // WithDownstreamDataIDs
 	IntervalMs int    `json:"interval_ms"`   // ack flush interval
-	NSrc       int    `json:"nsrc"`          // source nodes subscribed (filters)
+	NSrc       int    `json:"nsrc"`          // source nodes subscribed (filters 0..nsrc-1) when Filters is empty
+	Filters    []int  `json:"filters,omitempty"` // source node of every filter, in order (the same node may be named twice)
 	Outage     bool   `json:"outage,omitempty"` // short keepalive: "cut" ops sever the link, the stream resumes
 	Ops        []opIn `json:"ops"`
 }
@@ -223,9 +225,23 @@ func runCase(c *caseIn, r *rng.R) (res result) {
 		go func() { defer cancel(); conn.Close(ctx) }()
 	}()
 
+	fl := c.Filters
+	if len(fl) == 0 {
+		for i := 0; i < c.NSrc; i++ {
+			fl = append(fl, i)
+		}
+	}
+	subscribed := map[int]bool{}
 	var filters []*message.DownstreamFilter
-	for i := 0; i < c.NSrc; i++ {
-		filters = append(filters, message.NewDownstreamFilterAllFor(srcOf(i)))
+	var flT []string
+	for k, n := range fl {
+		subscribed[n] = true
+		flT = append(flT, fmt.Sprint(n))
+		f := message.NewDownstreamFilterAllFor(srcOf(n))
+		if k%2 == 1 { // a second filter of a node typically names other data
+			f = &message.DownstreamFilter{SourceNodeID: srcOf(n), DataFilters: []*message.DataFilter{{Name: fmt.Sprintf("d%d", k), Type: "#"}}}
+		}
+		filters = append(filters, f)
 	}
 	var pre []*message.DataID
 	for _, id := range c.Pre {
@@ -429,6 +445,70 @@ func runCase(c *caseIn, r *rng.R) (res result) {
 	}
 	awaitFailed := false
 
+	doRead := func() string {
+			timeout := wd
+			if !closed && q == 0 {
+				if emptyReads >= 2 {
+					return ""
+				}
+				emptyReads++
+				timeout = 4 * time.Millisecond
+			}
+			var ck *iscp.DownstreamChunk
+			err, blocked := call(func() error {
+				ctx, cancel := context.WithTimeout(context.Background(), timeout)
+				defer cancel()
+				var err error
+				ck, err = down.ReadDataPoints(ctx)
+				return err
+			})
+			if blocked {
+				return "ReadDataPoints did not return within the watchdog"
+			}
+			ec := errClass(err)
+			nu, ni := snapshot()
+			pick := closed && ec != 4
+			evT = append(evT, "Read "+coqfmt.Bool(pick))
+			consumed := ec == 0 || ec == 1 || ec == 2
+			var src opIn
+			if consumed && q > 0 {
+				src = fifo[0]
+				fifo = fifo[1:]
+				q--
+				if src.UpFull {
+					fullSeen[src.Up]++
+				}
+			}
+			resT := "None"
+			if ec == 0 && ck != nil {
+				okReads++
+				info := nm.infoIdx(ck.UpstreamInfo)
+				infosReturned[info] = true
+				var gs []string
+				for _, g := range ck.DataPointGroups {
+					var pts []ptT
+					for _, p := range g.DataPoints {
+						pts = append(pts, ptOf(p))
+					}
+					gs = append(gs, fmt.Sprintf("(%d,%s)", nm.didIdx(g.DataID), ptsTerm(pts)))
+				}
+				resT = fmt.Sprintf("(Some (%d,%d,%s))", ck.SequenceNumber, info, coqfmt.List(gs))
+				if !src.UpFull {
+					aliasUpReturned = true
+				}
+				for _, g := range src.Groups {
+					if !g.Full {
+						aliasGrpReturned = true
+					}
+				}
+			}
+			readsT = append(readsT, fmt.Sprintf("(%s,%d,%s,%s)", resT, ec, pairsTerm(nu), pairsTerm(ni)))
+			res.counts[fmt.Sprintf("read-err:%d", ec)]++
+			if pick {
+				res.counts["read-after-close-returned-chunk"]++
+			}
+			return ""
+	}
 	for i := range c.Ops {
 		op := &c.Ops[i]
 		switch op.Op {
@@ -484,7 +564,10 @@ func runCase(c *caseIn, r *rng.R) (res result) {
 				return bad("harness: broker could not send metadata: " + err.Error())
 			}
 			evT = append(evT, t)
-			if qm < inboxCap {
+			if !subscribed[op.Src] {
+				res.counts["meta-unsubscribed-node"]++
+				time.Sleep(200 * time.Microsecond) // discarded by the wire connection
+			} else if qm < inboxCap {
 				qm++
 				if !waitQueued(q, qm) {
 					return bad(fmt.Sprintf("a metadata item sent by the broker was not queued for ReadMetadata within %v", wd))
@@ -513,67 +596,129 @@ func runCase(c *caseIn, r *rng.R) (res result) {
 			if qm == inboxCap {
 				time.Sleep(50 * time.Millisecond)
 			}
+		case "mrounds":
+			// op.Rounds rounds of op.N metadata of one node sent back to back while a reader goroutine
+			// calls ReadMetadata concurrently; any linearisation in which an item is read after it
+			// arrived gives the same answers as long as the queue never fills, so the model gets
+			// "all arrive, then all read" per round
+			if closed || !subscribed[op.Src] {
+				continue
+			}
+			for rd := 0; rd < op.Rounds; rd++ {
+				if qm+op.N > inboxCap-8 {
+					break
+				}
+				type got struct {
+					res string
+					ec  int
+				}
+				gotCh := make(chan []got, 1)
+				n := op.N + qm
+				go func() {
+					var out []got
+					for k := 0; k < n; k++ {
+						ctx, cancel := context.WithTimeout(context.Background(), wd)
+						md, err := down.ReadMetadata(ctx)
+						cancel()
+						ec := errClass(err)
+						resT := "None"
+						if ec == 0 && md != nil {
+							body := 900000
+							if bt, ok := md.Metadata.(*message.BaseTime); ok {
+								kk := int(bt.ElapsedTime)
+								if bt.SessionID == "sess" && bt.Name == fmt.Sprintf("m%d", kk) && bt.Priority == uint8(kk%200) &&
+									bt.BaseTime.Equal(time.Unix(1700000000+int64(kk), 0)) {
+									body = kk
+								}
+							}
+							sn, ok := nm.src[md.SourceNodeID]
+							if !ok {
+								sn = 900000
+							}
+							resT = fmt.Sprintf("(Some (%d,%d))", sn, body)
+						}
+						out = append(out, got{resT, ec})
+						if ec != 0 {
+							break
+						}
+					}
+					gotCh <- out
+				}()
+				for k := 0; k < op.N; k++ {
+					o := opIn{Src: op.Src, Body: op.Body + rd*op.N + k}
+					t, err := sendMeta(&o)
+					if err != nil {
+						return bad("harness: broker could not send metadata: " + err.Error())
+					}
+					evT = append(evT, t)
+				}
+				var out []got
+				select {
+				case out = <-gotCh:
+				case <-time.After(2 * wd):
+					return bad("ReadMetadata did not return within the watchdog (metadata burst with a concurrent reader)")
+				}
+				okn := 0
+				for _, g := range out {
+					evT = append(evT, "ReadMeta false")
+					metasT = append(metasT, fmt.Sprintf("(%s,%d)", g.res, g.ec))
+					res.counts[fmt.Sprintf("readmeta-err:%d", g.ec)]++
+					if g.ec == 0 {
+						okn++
+						okMetaReads++
+					}
+				}
+				qm = qm + op.N - okn
+				res.counts["meta-burst-rounds"]++
+				if okn < n {
+					break
+				}
+			}
+		case "stuck":
+			// an ack flush stuck in the transport write (the peer stopped reading), a chunk read during
+			// that write, then loss of the connection (the write fails), resume
+			if closed || !c.Outage || q < 2 {
+				continue
+			}
+			if msg := doRead(); msg != "" {
+				return bad(msg)
+			}
+			sess.Link.SetStallClientWrites(true)
+			if broker.WaitFor(300*time.Millisecond, func() bool { return sess.Link.StalledClientWrites() >= 2 }) {
+				res.counts["ack-flush-stuck-in-write"]++
+			}
+			{
+				acksNow, _, _, _ := collect()
+				nres := 0
+				for _, a := range acksNow {
+					nres += len(a.results)
+				}
+				if nres < okReads {
+					pendingAtCut = true
+				}
+			}
+			n0 := resumed.Load()
+			cuts = append(cuts, cutT{len(evT), len(b.Sessions()) - 1})
+			rdone := make(chan string, 1)
+			go func() { rdone <- doRead() }()
+			time.Sleep(5 * time.Millisecond)
+			sess.Link.Sever(memtr.Loud)
+			select {
+			case msg := <-rdone:
+				if msg != "" {
+					return bad(msg)
+				}
+			case <-time.After(2 * wd):
+				return bad("ReadDataPoints started while an ack flush was stuck in the transport write did not return after the link was cut")
+			}
+			if !broker.WaitFor(wd, func() bool { return resumed.Load() > n0 }) {
+				return bad(fmt.Sprintf("the downstream did not resume within %v after a link failure (ack write stuck before the cut)", wd))
+			}
+			sess = b.Current()
+			res.counts["cut"]++
 		case "read":
-			timeout := wd
-			if !closed && q == 0 {
-				if emptyReads >= 2 {
-					continue
-				}
-				emptyReads++
-				timeout = 4 * time.Millisecond
-			}
-			var ck *iscp.DownstreamChunk
-			err, blocked := call(func() error {
-				ctx, cancel := context.WithTimeout(context.Background(), timeout)
-				defer cancel()
-				var err error
-				ck, err = down.ReadDataPoints(ctx)
-				return err
-			})
-			if blocked {
-				return bad("ReadDataPoints did not return within the watchdog")
-			}
-			ec := errClass(err)
-			nu, ni := snapshot()
-			pick := closed && ec != 4
-			evT = append(evT, "Read "+coqfmt.Bool(pick))
-			consumed := ec == 0 || ec == 1 || ec == 2
-			var src opIn
-			if consumed && q > 0 {
-				src = fifo[0]
-				fifo = fifo[1:]
-				q--
-				if src.UpFull {
-					fullSeen[src.Up]++
-				}
-			}
-			resT := "None"
-			if ec == 0 && ck != nil {
-				okReads++
-				info := nm.infoIdx(ck.UpstreamInfo)
-				infosReturned[info] = true
-				var gs []string
-				for _, g := range ck.DataPointGroups {
-					var pts []ptT
-					for _, p := range g.DataPoints {
-						pts = append(pts, ptOf(p))
-					}
-					gs = append(gs, fmt.Sprintf("(%d,%s)", nm.didIdx(g.DataID), ptsTerm(pts)))
-				}
-				resT = fmt.Sprintf("(Some (%d,%d,%s))", ck.SequenceNumber, info, coqfmt.List(gs))
-				if !src.UpFull {
-					aliasUpReturned = true
-				}
-				for _, g := range src.Groups {
-					if !g.Full {
-						aliasGrpReturned = true
-					}
-				}
-			}
-			readsT = append(readsT, fmt.Sprintf("(%s,%d,%s,%s)", resT, ec, pairsTerm(nu), pairsTerm(ni)))
-			res.counts[fmt.Sprintf("read-err:%d", ec)]++
-			if pick {
-				res.counts["read-after-close-returned-chunk"]++
+			if msg := doRead(); msg != "" {
+				return bad(msg)
 			}
 		case "readmeta":
 			timeout := wd
@@ -722,7 +867,7 @@ func runCase(c *caseIn, r *rng.R) (res result) {
 	for _, p := range c.Pre {
 		preT = append(preT, fmt.Sprint(p))
 	}
-	res.term = fmt.Sprintf("mkDsCase %s %s %s %s %s %s %s %s %d %d (%d,%d,%d)", coqfmt.List(preT), coqfmt.List(evT), pairsTerm(openT),
+	res.term = fmt.Sprintf("mkDsCase %s %s %s %s %s %s %s %s %s %d %d (%d,%d,%d)", coqfmt.List(flT), coqfmt.List(preT), coqfmt.List(evT), pairsTerm(openT),
 		coqfmt.List(readsT), coqfmt.Bool(stable), coqfmt.List(metasT), coqfmt.List(maT), coqfmt.List(acksT), nbefore, ncloses,
 		st.LastIssuedChunkAckID, st.LastIssuedDataIDAlias, st.LastIssuedUpstreamInfoAlias)
 	res.observed = map[string]interface{}{"reads": len(readsT), "ok_reads": okReads, "acks": len(acks), "closes": ncloses,
@@ -751,18 +896,41 @@ func runCase(c *caseIn, r *rng.R) (res result) {
 func genCase(r *rng.R) *caseIn {
 	c := &caseIn{QoS: r.Intn(3), NSrc: 1 + r.Intn(3)}
 	c.IntervalMs = []int{1, 1, 5, 20, 10000}[r.Intn(5)]
+	// one filter per source node, sometimes a second (or third) filter naming a node again
+	for n := 0; n < c.NSrc; n++ {
+		c.Filters = append(c.Filters, n)
+	}
+	for r.Chance(1, 3) {
+		pos := r.Intn(len(c.Filters) + 1)
+		c.Filters = append(c.Filters[:pos], append([]int{r.Intn(c.NSrc)}, c.Filters[pos:]...)...)
+	}
 	ninfo := 1 + r.Intn(5)
 	nids := 1 + r.Intn(6)
 	clean := r.Chance(1, 2) // every upstream in full form at most once
 	idAlias := map[int]int{}
 	nextID := 0
 	if r.Chance(1, 3) {
+		// pre-registered ids; a repeated id is legal: every position takes the next alias and the id
+		// keeps the last one in the reverse table
+		dups := r.Chance(1, 2)
 		for id := 1; id <= nids; id++ {
 			if r.Chance(1, 3) {
-				c.Pre = append(c.Pre, id)
-				nextID++
-				idAlias[id] = nextID
+				reps := 1
+				if dups && r.Chance(1, 2) {
+					reps = 2 + r.Intn(2)
+				}
+				for k := 0; k < reps; k++ {
+					c.Pre = append(c.Pre, id)
+					nextID++
+					idAlias[id] = nextID
+				}
 			}
+		}
+		if dups && len(c.Pre) > 0 && r.Chance(1, 2) { // an earlier id once more at the end
+			id := c.Pre[r.Intn(len(c.Pre))]
+			c.Pre = append(c.Pre, id)
+			nextID++
+			idAlias[id] = nextID
 		}
 	}
 	upAliases := map[int][]int{}
@@ -824,8 +992,13 @@ func genCase(r *rng.R) *caseIn {
 			}
 		case k < 80:
 			body++
-			c.Ops = append(c.Ops, opIn{Op: "meta", Src: r.Intn(c.NSrc), Body: body})
-			mqueued++
+			src := r.Intn(c.NSrc)
+			if r.Chance(1, 10) {
+				src = c.NSrc // a node without filter: discarded by the wire connection
+			} else {
+				mqueued++
+			}
+			c.Ops = append(c.Ops, opIn{Op: "meta", Src: src, Body: body})
 		case k < 88:
 			c.Ops = append(c.Ops, opIn{Op: "readmeta"})
 			if mqueued > 0 {
@@ -885,6 +1058,58 @@ func genOutage(r *rng.R) *caseIn {
 		}
 		pos := r.Intn(lim + 1)
 		c.Ops = append(c.Ops[:pos], append([]opIn{{Op: "cut"}}, c.Ops[pos:]...)...)
+	}
+	return c
+}
+
+// bursts of metadata of one node that two or three filters name, read back by a concurrent reader
+func genMetaBurst(r *rng.R) *caseIn {
+	c := &caseIn{QoS: r.Intn(3), NSrc: 2, IntervalMs: 5}
+	c.Filters = [][]int{{0, 0}, {0, 1, 0}, {1, 0, 0, 0}}[r.Intn(3)]
+	c.Ops = append(c.Ops, opIn{Op: "meta", Src: 1, Body: 1}, opIn{Op: "meta", Src: 0, Body: 2},
+		opIn{Op: "mrounds", Src: 0, Body: 10, N: 300 + r.Intn(200), Rounds: 3 + r.Intn(3)},
+		opIn{Op: "readmeta"}, opIn{Op: "close"})
+	return c
+}
+
+// an ack flush stuck in the transport write, a chunk read during it, link failure, resume
+func genStuck(r *rng.R) *caseIn {
+	c := genCase(r)
+	c.Outage = true
+	c.IntervalMs = []int{1, 1, 5}[r.Intn(3)]
+	for k, o := range c.Ops { // cut the random prefix before its Close
+		if o.Op == "close" {
+			c.Ops = c.Ops[:k]
+			break
+		}
+	}
+	queued := 0
+	for _, o := range c.Ops {
+		switch o.Op {
+		case "arrive":
+			queued++
+		case "read":
+			if queued > 0 {
+				queued--
+			}
+		}
+	}
+	for ; queued > 0; queued-- {
+		c.Ops = append(c.Ops, opIn{Op: "read"})
+	}
+	mk := func(info, id, seq int) opIn {
+		return opIn{Op: "arrive", UpFull: true, Up: info, Seq: seq, Groups: []grpIn{{Full: true, ID: id, Lens: []int{1 + r.Intn(3)}}}}
+	}
+	c.Ops = append(c.Ops, opIn{Op: "await"}, mk(6, 7, 1), mk(7, 8, 1), mk(6, 8, 2), opIn{Op: "stuck"})
+	if r.Chance(1, 2) {
+		c.Ops = append(c.Ops, opIn{Op: "await"})
+	}
+	c.Ops = append(c.Ops, opIn{Op: "read"})
+	if r.Chance(1, 3) {
+		c.Ops = append(c.Ops, mk(7, 7, 2), mk(6, 7, 3), opIn{Op: "stuck"}, opIn{Op: "read"})
+	}
+	if r.Chance(2, 3) {
+		c.Ops = append(c.Ops, opIn{Op: "close"})
 	}
 	return c
 }
@@ -973,9 +1198,9 @@ func main() {
 		}
 		jobs = append(jobs, job{&rf.Input, "replay", rf.CaseSeed})
 	} else {
-		nrand, nover, nout := 460, 2, 40
+		nrand, nover, nout, nstuck, nmb := 420, 2, 40, 30, 3
 		if *tier == "thorough" {
-			nrand, nover, nout = 5600, 12, 400
+			nrand, nover, nout, nstuck, nmb = 5200, 12, 400, 300, 20
 		}
 		genScripted(add)
 		for i := 0; i < nover; i++ {
@@ -994,6 +1219,23 @@ func main() {
 			{Op: "arrive", UpFull: true, Up: 1, Seq: 2, Groups: []grpIn{g(false, 1)}}, {Op: "read"}, {Op: "cut"}, {Op: "await"}}}, "outage")
 		for i := 0; i < nout; i++ {
 			add(genOutage(r.Fork()), "outage")
+		}
+		// the same data id pre-registered twice before a distinct one; a new full-form id must not
+		// disturb the pre-registered alias of the later one
+		add(&caseIn{QoS: 1, NSrc: 1, IntervalMs: 1, Pre: []int{1, 1, 2}, Ops: []opIn{
+			{Op: "arrive", UpFull: true, Up: 1, Seq: 1, Groups: []grpIn{g(false, 3), g(true, 5), g(false, 2), g(false, 1)}}, {Op: "read"},
+			{Op: "arrive", Up: 1, Seq: 2, Groups: []grpIn{g(true, 6), g(false, 3), g(false, 4), g(false, 5)}}, {Op: "read"},
+			{Op: "arrive", Up: 1, Seq: 3, Groups: []grpIn{g(false, 3), g(true, 2)}}, {Op: "read"}, {Op: "close"}}}, "scripted")
+		// ack flush stuck in the write while the next chunk is read, then the link dies
+		add(&caseIn{QoS: 1, NSrc: 1, IntervalMs: 1, Outage: true, Ops: []opIn{
+			{Op: "arrive", UpFull: true, Up: 1, Seq: 1, Groups: []grpIn{g(true, 1)}},
+			{Op: "arrive", UpFull: true, Up: 2, Seq: 1, Groups: []grpIn{g(true, 2)}},
+			{Op: "stuck"}, {Op: "await"}, {Op: "close"}}}, "stuck")
+		for i := 0; i < nstuck; i++ {
+			add(genStuck(r.Fork()), "stuck")
+		}
+		for i := 0; i < nmb; i++ {
+			add(genMetaBurst(r.Fork()), "metaburst")
 		}
 	}
 	results := make([]coqfmt.Case, len(jobs))
@@ -1015,7 +1257,7 @@ func main() {
 				os.Exit(3)
 			}
 			if res.term == "" {
-				cs.Term = "mkDsCase [] [] [] [] true [] [] [] 0 0 (0,0,0)"
+				cs.Term = "mkDsCase [] [] [] [] [] true [] [] [] 0 0 (0,0,0)"
 			}
 			mu.Lock()
 			results[i] = cs
@@ -1038,7 +1280,7 @@ func main() {
 			}
 		}
 	}
-	rule := "scripted switch-over histories; overflow histories (more than 1024 chunks / metadata items queued before any read); random: 4-31 ops over 1-5 upstreams x 1-6 data ids mixing full and alias forms (full form again after the alias exists, alias used in the chunk that introduces the id, unknown aliases, pre-registered ids), 0-4 groups of 0-3 points, metadata from 1-3 source nodes, reads lagging arbitrarily, reads on an empty queue, awaits of the timer-driven ack flush (interval 1/5/20 ms) or a 10 s interval with everything pending at Close, reads and a second Close after Close, QoS x3; outage: the same with 1-2 loud link failures in the middle (keepalive 10/40 ms, the broker accepts the redial and the resume request), half of them with a 10 s flush interval so that every result read before the failure is still pending when the link dies; the failed flushes are recovered from the gap in the ack ids. non-trivial = >=2 upstreams returned, >=1 returned chunk whose upstream came in alias form, >=1 returned group in alias form, >=2 acks; distinct = distinct Coq case terms"
+	rule := "scripted switch-over histories; overflow histories (more than 1024 chunks / metadata items queued before any read); random: 4-31 ops over 1-5 upstreams x 1-6 data ids mixing full and alias forms (full form again after the alias exists, alias used in the chunk that introduces the id, unknown aliases, pre-registered ids), 0-4 groups of 0-3 points, metadata from 1-3 source nodes, reads lagging arbitrarily, reads on an empty queue, awaits of the timer-driven ack flush (interval 1/5/20 ms) or a 10 s interval with everything pending at Close, reads and a second Close after Close, QoS x3; outage: the same with 1-2 loud link failures in the middle (keepalive 10/40 ms, the broker accepts the redial and the resume request), half of them with a 10 s flush interval so that every result read before the failure is still pending when the link dies; the failed flushes are recovered from the gap in the ack ids; stuck: the peer stops reading so that an ack flush blocks in the transport write, the next chunk is read meanwhile, then the link is cut (the write fails) and the stream resumes; metaburst: 3-5 rounds of 300-500 metadata of a node named by two or three filters, sent back to back with a concurrent reader; filters may name a node twice, metadata of nodes without filter are sent too; pre-registered id lists may repeat an id. non-trivial = >=2 upstreams returned, >=1 returned chunk whose upstream came in alias form, >=1 returned group in alias form, >=2 acks; distinct = distinct Coq case terms"
 	if err := w.Flush(*seed, *tier, rule, false, nil); err != nil {
 		fmt.Fprintln(os.Stderr, err)
 		os.Exit(2)
